@@ -7,37 +7,110 @@ From Falcon.C14 Require Import Spec Model ProofsDefs ProofsSync ProofsFind.
 Import ListNotations.
 Local Open Scope nat_scope.
 
+(* operations whose delimiter (if any) has a length within [1, chunk_size] *)
+Definition valid_op (cs : nat) (o : op) : bool :=
+  match o with
+  | OReadUntil d _ _ | OPipeUntil d _ => negb (bad_delim cs d)
+  | _ => true
+  end.
+
+Lemma bad_delim_false_iff : forall cs (d : bytes),
+  bad_delim cs d = false <-> (1 <= length d /\ length d <= cs).
+Proof.
+  intros cs d. unfold bad_delim.
+  destruct (Nat.eqb_spec (length d) 0); destruct (Nat.ltb_spec cs (length d)); cbn [orb];
+    split; intros; try discriminate; try lia; reflexivity.
+Qed.
+
+(* ------------------------------------------------------------------ every operation leaves a suffix *)
+Lemma suffix_norm : forall (v v' : bytes) k, v' = skipn k v -> v' = skipn (length v - length v') v.
+Proof.
+  intros v v' k ->. rewrite skipn_length.
+  destruct (Nat.le_gt_cases k (length v)) as [H|H].
+  - replace (length v - (length v - k)) with k by lia. reflexivity.
+  - rewrite skipn_all2 by lia. replace (length v - (length v - k)) with (length v) by lia.
+    rewrite skipn_all. reflexivity.
+Qed.
+
+Lemma sp_readlines_suffix : forall fuel hint got rest ls r',
+  sp_readlines fuel hint got rest = (ls, r') -> exists k, r' = skipn k rest.
+Proof.
+  induction fuel as [|f IH]; intros hint got rest ls r' H; cbn [sp_readlines] in H.
+  - inversion H. exists 0. reflexivity.
+  - unfold sp_readline in H.
+    set (n := match find [LF] rest with
+              | Some i => Nat.min (lim None rest) (Datatypes.S i)
+              | None => lim None rest
+              end) in H.
+    destruct (firstn n rest) as [|x line].
+    + inversion H. exists n. reflexivity.
+    + destruct (match hint with Some h => h <=? got + length (x :: line) | None => false end).
+      * inversion H. exists n. reflexivity.
+      * destruct (sp_readlines f hint (got + length (x :: line)) (skipn n rest)) as [ls2 r2] eqn:E.
+        inversion H; subst ls r'. destruct (IH _ _ _ _ _ E) as [k ->].
+        exists (n + k). rewrite skipn_add. reflexivity.
+Qed.
+
+Lemma sp_op_suffix_all : forall cs o v r v', sp_op cs o v = (r, v') ->
+  v' = skipn (length v - length v') v.
+Proof.
+  intros cs o v r v' H. destruct o; cbn [sp_op] in H.
+  - unfold sp_read in H. injection H as Hr Hv; subst v'. eapply suffix_norm. reflexivity.
+  - injection H as Hr Hv; subst v'. apply (suffix_norm v v 0). reflexivity.
+  - destruct (bad_delim cs d); [injection H as Hr Hv; subst v'; apply (suffix_norm v v 0); reflexivity|].
+    unfold sp_until in H. destruct consume.
+    + destruct (startswith (skipn (upto d size v) v) d); (injection H as Hr Hv; subst v').
+      * rewrite skipn_add. eapply suffix_norm. reflexivity.
+      * eapply suffix_norm. reflexivity.
+    + injection H as Hr Hv; subst v'. eapply suffix_norm. reflexivity.
+  - injection H as Hr Hv; subst v'. apply (suffix_norm v [] (length v)). symmetry. apply skipn_all.
+  - destruct (bad_delim cs d); [injection H as Hr Hv; subst v'; apply (suffix_norm v v 0); reflexivity|].
+    unfold sp_until in H. destruct consume.
+    + destruct (startswith (skipn (upto d None v) v) d); (injection H as Hr Hv; subst v').
+      * rewrite skipn_add. eapply suffix_norm. reflexivity.
+      * eapply suffix_norm. reflexivity.
+    + injection H as Hr Hv; subst v'. eapply suffix_norm. reflexivity.
+  - unfold sp_readline in H. injection H as Hr Hv; subst v'. eapply suffix_norm. reflexivity.
+  - destruct (sp_readlines (Datatypes.S (length v)) hint 0 v) as [ls r2] eqn:E. injection H as Hr Hv; subst v'.
+    destruct (sp_readlines_suffix _ _ _ _ _ _ E) as [k Hk]. eapply suffix_norm. exact Hk.
+  - injection H as Hr Hv; subst v'. apply (suffix_norm v [] (length v)). symmetry. apply skipn_all.
+Qed.
+
 Section UntilProofs.
 Variable S : Type.
 Variable rd : S -> nat -> bytes * S.
 Variable sabs : S -> bytes.
 Variable cs : nat.
-Hypothesis Hsrc : good_source S rd sabs.
+Variable P : S -> Prop.
+Variable NT : Prop.
+Hypothesis Hsrc : good_source_on P rd sabs.
 Hypothesis cs_pos : 0 < cs.
 Notation tail := (tail S sabs).
 Notation abs := (abs S sabs).
-Notation Inv := (Inv S).
+Notation srcok := (srcok S sabs P NT).
+Notation Inv := (InvP S sabs P NT).
 
 (* the basic operations, proved in ProofsSync.v, restated for this section's source *)
-Lemma perform_read_spec : forall st n out st', perform_read S rd st n = (out, st') ->
-   out = firstn n (tail st) /\ tail st' = skipn n (tail st) /\ buf st' = buf st /\ blen st' = blen st /\ bpos st' = bpos st.
-Proof. exact (ProofsSync.perform_read_spec S rd sabs Hsrc). Qed.
+Lemma perform_read_spec : forall st n out st', srcok st -> perform_read S rd st n = (out, st') ->
+   out = firstn n (tail st) /\ tail st' = skipn n (tail st) /\ buf st' = buf st /\
+   blen st' = blen st /\ bpos st' = bpos st /\ srcok st'.
+Proof. exact (ProofsSync.perform_read_spec S rd sabs P NT Hsrc). Qed.
 Lemma fill_buffer_spec : forall st, Inv st -> let st' := fill_buffer S rd cs st in
    Inv st' /\ abs st' = abs st /\ (cs <= avail S st' \/ tail st' = []).
-Proof. exact (ProofsSync.fill_buffer_spec S rd sabs cs Hsrc). Qed.
+Proof. exact (ProofsSync.fill_buffer_spec S rd sabs cs P NT Hsrc). Qed.
 Lemma peek_spec : forall st size out st', Inv st -> peek S rd cs st size = (out, st') ->
    out = sp_peek cs size (abs st) /\ abs st' = abs st /\ Inv st'.
-Proof. exact (ProofsSync.peek_spec S rd sabs cs Hsrc). Qed.
+Proof. exact (ProofsSync.peek_spec S rd sabs cs P NT Hsrc). Qed.
 Lemma read__spec : forall st n out st', Inv st -> read_ S rd cs true st n = (out, st') ->
    out = firstn n (abs st) /\ abs st' = skipn n (abs st) /\ Inv st'.
-Proof. exact (ProofsSync.read__spec S rd sabs cs Hsrc). Qed.
+Proof. exact (ProofsSync.read__spec S rd sabs cs P NT Hsrc). Qed.
 Lemma normalize_size_spec : forall st size, Inv st ->
    firstn (normalize_size S st size) (abs st) = firstn (lim size (abs st)) (abs st) /\
    skipn (normalize_size S st size) (abs st) = skipn (lim size (abs st)) (abs st).
-Proof. exact (ProofsSync.normalize_size_spec S sabs). Qed.
+Proof. exact (ProofsSync.normalize_size_spec S sabs P NT). Qed.
 Lemma read_spec : forall st size out st', Inv st -> read S rd cs true st size = (out, st') ->
    (out, abs st') = sp_read size (abs st) /\ Inv st'.
-Proof. exact (ProofsSync.read_spec S rd sabs cs Hsrc). Qed.
+Proof. exact (ProofsSync.read_spec S rd sabs cs P NT Hsrc). Qed.
 
 (* ------------------------------------------------------------------ 0. small facts *)
 Lemma pr_loop_rem_le : forall fuel size cl result r s res r' s',
@@ -72,7 +145,7 @@ Lemma tail_rem0 : forall st, rem st = 0 -> tail st = [].
 Proof. intros st H. unfold ProofsDefs.tail. rewrite H. reflexivity. Qed.
 
 Lemma abs_length_buf : forall st, Inv st -> length (skipn (bpos st) (buf st)) = avail S st.
-Proof. intros st [Hl Hp]. rewrite skipn_length. unfold avail. lia. Qed.
+Proof. intros st [[Hl Hp] _]. rewrite skipn_length. unfold avail. lia. Qed.
 
 (* _buffer_pos += k *)
 Lemma advance_spec : forall st k, Inv st -> k <= avail S st ->
@@ -80,8 +153,8 @@ Lemma advance_spec : forall st k, Inv st -> k <= avail S st ->
   Inv st' /\ abs st' = skipn k (abs st).
 Proof.
   intros st k HI Hk. pose proof (abs_length_buf st HI) as Hlen.
-  destruct HI as [Hl Hp]. unfold avail in *. split.
-  - split; cbn [buf blen bpos]; lia.
+  destruct HI as [[Hl Hp] Hok]. unfold avail in *. split.
+  - split; [split; cbn [buf blen bpos]; lia | exact Hok].
   - unfold ProofsDefs.abs, ProofsDefs.tail. cbn [buf blen bpos rem src].
     rewrite skipn_app_le by lia. rewrite skipn_add. reflexivity.
 Qed.
@@ -103,15 +176,17 @@ Lemma read__in_buffer : forall st n out st', Inv st -> n <= avail S st ->
   skipn (bpos st') (buf st') = skipn n (skipn (bpos st) (buf st)) /\
   rem st' = rem st /\ src st' = src st /\ Inv st'.
 Proof.
-  intros st n out st' HI Hn H. pose proof HI as [Hl Hp]. unfold read_, avail in *.
+  intros st n out st' HI Hn H. pose proof HI as [[Hl Hp] Hok]. unfold read_, avail in *.
   destruct (Nat.leb_spec n (blen st - bpos st)) as [_|Hc]; [|lia].
   destruct (Nat.eqb_spec n (blen st)) as [He|He];
     [destruct (Nat.eqb_spec (bpos st) 0) as [Hz|Hz]|]; cbn [andb] in H;
     inversion H; subst out st'; cbn [buf blen bpos rem src].
   - rewrite Hz. cbn [skipn]. rewrite firstn_all2, skipn_all2 by lia.
-    repeat split; cbn [buf blen bpos]; auto.
-  - rewrite skipn_add. repeat split; cbn [buf blen bpos]; auto; lia.
-  - rewrite skipn_add. repeat split; cbn [buf blen bpos]; auto; lia.
+    split; [|split; [|split; [|split; [|split; [split|exact Hok]]]]]; cbn [buf blen bpos]; auto.
+  - rewrite skipn_add.
+    split; [|split; [|split; [|split; [|split; [split|exact Hok]]]]]; cbn [buf blen bpos]; auto; lia.
+  - rewrite skipn_add.
+    split; [|split; [|split; [|split; [|split; [split|exact Hok]]]]]; cbn [buf blen bpos]; auto; lia.
 Qed.
 
 Lemma peek_out : forall st size out st', peek S rd cs st size = (out, st') ->
@@ -186,20 +261,21 @@ Lemma fin_splice_spec : forall st1 nc, Inv st1 ->
   Inv (fin_splice st1 nc) /\
   abs (fin_splice st1 nc) = skipn (bpos st1) (buf st1) ++ nc ++ tail st1.
 Proof.
-  intros st1 nc [Hl Hp]. unfold fin_splice.
+  intros st1 nc [[Hl Hp] Hok]. unfold fin_splice.
   destruct (Nat.ltb_spec 0 (length nc)) as [Hn|Hn].
   - destruct (Nat.eqb_spec (blen st1) 0) as [Hz|Hz].
     + assert (Hb : buf st1 = []) by (destruct (buf st1); [reflexivity | simpl in Hl; lia]).
       assert (Hp0 : bpos st1 = 0) by lia.
-      split; [split; cbn [buf blen bpos]; lia|].
+      split; [split; [split; cbn [buf blen bpos]; lia | exact Hok]|].
       unfold ProofsDefs.abs, ProofsDefs.tail. cbn [buf blen bpos rem src].
       rewrite Hb, Hp0. cbn [skipn app]. reflexivity.
     + split.
-      * split; cbn [buf blen bpos]; [|lia]. rewrite app_length, skipn_length. lia.
+      * split; [split; cbn [buf blen bpos]; [|lia]; rewrite app_length, skipn_length; lia
+               | exact Hok].
       * unfold ProofsDefs.abs, ProofsDefs.tail. cbn [buf blen bpos rem src skipn].
         rewrite <- app_assoc. reflexivity.
   - assert (Hnc : nc = []) by (destruct nc; [reflexivity | simpl in Hn; lia]).
-    subst nc. split; [split; assumption|]. reflexivity.
+    subst nc. split; [split; [split; assumption | exact Hok]|]. reflexivity.
 Qed.
 
 (* the consume step when the delimiter position is not known: peek and compare *)
@@ -290,7 +366,7 @@ Proof.
   change (fin_splice ?s []) with s in H.
   assert (Hav : n - hb <= avail S st) by lia.
   destruct (advance_spec st (n - hb) HI Hav) as [HI2 Habs2].
-  pose proof HI as [Hl Hp].
+  pose proof HI as [[Hl Hp] _].
   eapply fin_consume_pos; [exact HI2 | exact Hd1 | | exact H | | |].
   - cbn [blen]. unfold avail in Hocc. lia.
   - rewrite Habs2. symmetry. apply skipn_backlog; [exact Hb | lia].
@@ -354,7 +430,7 @@ Lemma found_eq : forall st (d : bytes), Inv st -> 1 <= length d ->
   (if bpos st <? blen st then find_from d (buf st) (bpos st) else None)
   = find_from d (buf st) (bpos st).
 Proof.
-  intros st d [Hl Hp] Hd. destruct (Nat.ltb_spec (bpos st) (blen st)) as [_|Hge]; [reflexivity|].
+  intros st d [[Hl Hp] _] Hd. destruct (Nat.ltb_spec (bpos st) (blen st)) as [_|Hge]; [reflexivity|].
   unfold find_from. rewrite skipn_all2 by lia. rewrite find_nil_l by assumption. reflexivity.
 Qed.
 
@@ -374,8 +450,8 @@ Lemma appended_spec : forall st1 nc, Inv st1 ->
   skipn (bpos (appended st1 nc)) (buf (appended st1 nc)) = skipn (bpos st1) (buf st1) ++ nc /\
   abs (appended st1 nc) = skipn (bpos st1) (buf st1) ++ nc ++ tail st1.
 Proof.
-  intros st1 nc [Hl Hp]. unfold appended. split; [|split].
-  - split; cbn [buf blen bpos]; [rewrite app_length|]; lia.
+  intros st1 nc [[Hl Hp] Hok]. unfold appended. split; [|split].
+  - split; [split; cbn [buf blen bpos]; [rewrite app_length|]; lia | exact Hok].
   - cbn [buf bpos]. apply skipn_app_le. lia.
   - unfold ProofsDefs.abs, ProofsDefs.tail. cbn [buf bpos rem src].
     rewrite skipn_app_le by lia. rewrite <- app_assoc. reflexivity.
@@ -385,11 +461,11 @@ Qed.
 Definition fresh (st1 : state S) (nc : bytes) : state S :=
   mk nc (length nc) 0 (rem st1) (src st1).
 
-Lemma fresh_spec : forall st1 nc,
+Lemma fresh_spec : forall st1 nc, srcok st1 ->
   Inv (fresh st1 nc) /\ abs (fresh st1 nc) = nc ++ tail st1 /\ rem (fresh st1 nc) = rem st1.
 Proof.
-  intros st1 nc. unfold fresh. split; [|split].
-  - split; cbn [buf blen bpos]; lia.
+  intros st1 nc Hok. unfold fresh. split; [|split].
+  - split; [split; cbn [buf blen bpos]; lia | exact Hok].
   - reflexivity.
   - reflexivity.
 Qed.
@@ -436,10 +512,11 @@ Proof.
       rewrite upto_no_occ by (intros k Hk; apply Hnob in Hk; lia).
       apply post'_min. eapply finalize_nodelim; eauto.
     + destruct (perform_read S rd st cs) as [nc st1] eqn:Epr.
-      destruct (perform_read_spec _ _ _ _ Epr) as (Hnc & Htl & Hbuf & Hblen & Hbpos).
+      destruct (perform_read_spec _ _ _ _ (proj2 HI) Epr)
+        as (Hnc & Htl & Hbuf & Hblen & Hbpos & Hok1).
       pose proof (perform_read_rem _ _ _ _ cs_pos Epr) as Hrem.
       assert (HI1 : Inv st1).
-      { unfold ProofsDefs.Inv. rewrite Hbuf, Hblen, Hbpos. exact HI. }
+      { split; [|exact Hok1]. unfold ProofsDefs.Inv. rewrite Hbuf, Hblen, Hbpos. exact (proj1 HI). }
       assert (Htail : tail st = nc ++ tail st1).
       { rewrite Hnc, Htl. symmetry. apply firstn_skipn. }
       assert (Habs : abs st = skipn (bpos st1) (buf st1) ++ nc ++ tail st1).
@@ -471,7 +548,7 @@ Proof.
                rewrite Habs, Ht1, app_nil_r, <- HbufS in Hk'.
                exact (proj1 (find_None_occ d _) EfS _ Hk'). }
            apply post'_min. rewrite HA. eapply finalize_nodelim; eauto.
-      * destruct (fresh_spec st1 nc) as (HIN & HabsN & HremN).
+      * destruct (fresh_spec st1 nc Hok1) as (HIN & HabsN & HremN).
         destruct (Nat.leb_spec (blen st1) (bpos st1)) as [Hemp|Hne].
         -- (* the buffer was empty: go on with the chunk *)
            fold (fresh st1 nc) in H.
@@ -786,18 +863,8 @@ Proof.
 Qed.
 
 (* ------------------------------------------------------------------ 7. delimit() *)
-(* [good_source] quantifies over all source states; a parent reader is a conforming source
-   for its delimited child only in states satisfying the representation invariant, so the
-   contract is relativised to a predicate that the read function must preserve. *)
-Definition good_source_on {T : Type} (P : T -> Prop) (crd : T -> nat -> bytes * T)
-           (cabs : T -> bytes) : Prop :=
-  forall s n, P s -> 0 < n ->
-    exists k, k <= n /\
-      fst (crd s n) = firstn k (cabs s) /\
-      cabs (snd (crd s n)) = skipn k (cabs s) /\
-      (cabs s <> [] -> 0 < k) /\
-      P (snd (crd s n)).
-
+(* a reader in a state satisfying its invariant is a conforming source ([good_source_on],
+   ProofsSync.v) for a delimited child; the child sees the cursor up to the delimiter *)
 Theorem child_good_source : forall d : bytes, 1 <= length d -> length d <= cs ->
   good_source_on Inv (child_rd S rd cs true d) (fun st => cut d (abs st)).
 Proof.
@@ -811,6 +878,27 @@ Proof.
   - rewrite <- Habs1. apply cut_upto_skipn. exact Hd1.
   - apply cut_upto_pos; assumption.
   - exact HI1.
+Qed.
+
+
+(* ------------------------------------------------------------------ 8. every operation *)
+Theorem refine_op : forall st o r st', valid_op cs o = true -> Inv st ->
+  run_op S rd cs true st o = (r, st') ->
+  sp_op cs o (abs st) = (r, abs st') /\ Inv st'.
+Proof.
+  intros st o r st' Hv HI H.
+  destruct o;
+    try (apply (refine_op_basic S rd sabs cs P NT Hsrc cs_pos st _ r st');
+         [reflexivity | exact HI | exact H]).
+  - cbn [valid_op] in Hv. apply negb_true_iff, bad_delim_false_iff in Hv as [H1 H2].
+    cbn [run_op] in H. apply read_until_spec; assumption.
+  - cbn [valid_op] in Hv. apply negb_true_iff, bad_delim_false_iff in Hv as [H1 H2].
+    cbn [run_op] in H. apply pipe_until_spec; assumption.
+  - cbn [run_op sp_op] in *. destruct (readline S rd cs true st size) as [b st1] eqn:E.
+    inversion H; subst r st'. destruct (readline_spec _ _ _ _ HI E) as [Hs HI1].
+    rewrite <- Hs. auto.
+  - cbn [run_op] in H. destruct (readlines S rd cs true st hint) as [l st1] eqn:E.
+    inversion H; subst r st'. apply readlines_spec; assumption.
 Qed.
 
 End UntilProofs.
